@@ -299,6 +299,9 @@ func (p *Path) Call(fn *ssa.Function, args []Value, deferredBy *frame, env []Val
 	if h := p.X.intrinsic(fn); h != nil {
 		return h(p, fn, args)
 	}
+	if strings.HasPrefix(fn.Name(), "vAsm_") {
+		return p.asmCall(fn.Name()[5:], fn, args)
+	}
 	if p.job != nil && p.job.Cfg["stubs"] == 1 && fn.Pkg != nil {
 		// harness-provided contract stub: vStub_<name> replaces <name>
 		if st := fn.Pkg.Func("vStub_" + fn.Name()); st != nil && st != fn {
